@@ -53,3 +53,17 @@ Example C05_example :
   should_update {| ci := false; upd := UClean; colour := false |} None = false /\
   should_update {| ci := false; upd := UOther; colour := false |} (Some true) = true.
 Proof. vm_compute. repeat split. Qed.
+
+(* non-vacuity: every theorem of this file that has hypotheses has a concrete, non-trivial instance meeting ALL of them
+   (lemmas <Theorem>_witness / <Theorem>_applied in Proofs/WitnessesP.v); a representative one is restated here *)
+From Snaps Require Import Proofs.WitnessesP.
+Example C05_witnesses :
+  (Forall api_op w05_ops /\ ci (s_env w05_s_ci) = true /\
+   map o_outcome (snd (run w05_s_ci w05_ops)) = w05_ci_outcomes) /\
+  (nth_error (s_cfgs w05_s) 1 = Some w05_c1 /\
+   step w05_s w05_op2 = (fst (step w05_s w05_op2), snd (step w05_s w05_op2)) /\
+   o_outcome (snd (step w05_s w05_op2)) = Updated) /\
+  (nth_error (s_cfgs w05_s) 0 = Some w05_c0 /\
+   step w05_s w05_op3 = (fst (step w05_s w05_op3), snd (step w05_s w05_op3)) /\
+   o_outcome (snd (step w05_s w05_op3)) = Added).
+Proof. exact C05_witnesses_all. Qed.
